@@ -279,7 +279,7 @@ class Distribution(Density, ABC):
         for var_key in mutable_vars:
 
             #If keyword directly specifies new value of variable we simply reassign
-            if var_key in kwargs:
+            if var_key in kwargs and getattr(self, var_key) is None: # (a variable that already holds a value keeps it)
                 setattr(new_dist, var_key, kwargs.get(var_key))
                 processed_kwargs.add(var_key)
 
